@@ -269,6 +269,17 @@ def run_c19(cx, tier="quick"):
                     n += 1
                     if not ok:
                         bad.append(d)
+    # non-finite losses (a run that diverges) after a finite first epoch: NaN compares False with everything, so it is never an
+    # improvement; +inf never improves.  (A non-finite FIRST loss is left out: whether it "improves on the best so far" is not specified.)
+    nan, inf = float("nan"), float("inf")
+    for losses in ([3.0, 2.0, 1.0, nan, nan, nan, nan], [1.0, nan, 2.0, 2.0, 2.0], [2.0, nan, 1.0, nan, nan, nan], [1.0, inf, 0.5, inf, inf, inf], [2.0, 1.0, inf, nan, 0.5, nan, nan, nan]):
+        for rp in ("float", "np.float32", "jax"):
+            for kind in ("train", "val"):
+                for pat in (0, 2):
+                    ok, d = _c19_concrete(kind, list(losses), pat, 0.0, rp)
+                    n += 1
+                    if not ok:
+                        bad.append(d)
     cx.validated_against_impl(n)
     if bad:
         cx.external("genuine scalars (float, np.float32, jax) on the real classes", "sat", bad[0] + f" (+{len(bad) - 1} more)", reproduced=True,
